@@ -145,6 +145,7 @@ def oracle(ctx, deep):
     need("class3", core.hx("".join(sorted(DOC_CLASSES[1] + DOC_CLASSES[2]))), "Letters")
     need("class15", core.hx("".join(sorted(DOC_CLASSES[1] + DOC_CLASSES[2] + DOC_CLASSES[4] + DOC_CLASSES[8]))), "All")
     need("class0", "-", "None")
+    need("flags", "1,2,4,8,16,3,15,0", "the class constants Uppers, Lowers, Digits, Symbols, Ambiguous, Letters, All, None")
     need("newchar", "17,15,0,16,-,0,-", "NewCharRecipe defaults (Length, Allow, Require, Exclude, AllowChars, #RequireSets, ExcludeChars)")
     need("newwl", "5,%s,-,true,2" % core.hx("none"), "NewWLRecipe defaults (Length, Capitalize, SeparatorChar, SeparatorFunc nil, Size)")
     need("newchar2", "9,15,0,16,-,0,-,first=3", "a second NewCharRecipe after the caller changed every field of the first (defaults again; the first keeps Length 3)")
